@@ -240,70 +240,7 @@ Loop:
 			continue
 		}
 
-		// the queued messages have been sent to redis in bulk,
-		// and the messages are finally assembled and sent to
-		// the client when and only when all the messages have been processed
-
-		// Replies are delivered in request order: flush the completed requests at the
-		// head of the queue, up to the first one that is still waiting for redis.
-		// Later requests never hold back replies that are ready.
-		var nDone int
-		for cur := c.inMsgQueue.head; cur != nil && cur.Done; cur = cur.prev {
-			nDone++
-		}
-		if nDone == 0 {
-			continue
-		}
-
-		var bs = make([][]byte, nDone)
-		bs = bs[:0]
-		cur := c.inMsgQueue.head
-
-		var curId uint64
-		var curFd = c.fd
-
-		for i := 0; i < nDone; i++ {
-			curId = cur.Id
-			bs = append(bs, cur.RspBody)
-			logging.Debugfunc(func() string { return fmt.Sprintf("[%dm][%dc] got res: %s", cur.Id, c.Fd(), cur.RspBodyString()) })
-			cur = cur.prev
-		}
-
-		for len(bs) > 0 {
-			var r = len(bs)
-			if r >= iovMax {
-				r = iovMax
-			}
-
-			if _, err = c.writev(bs[0:r]); err != nil {
-				logging.Warnf("[%dm][%dc] write to client failed, error: %s", curId, curFd, err)
-				break
-			}
-			if !c.opened {
-				logging.Warnf("[%dm][%dc] write failed because of client closed", curId, curFd)
-				break
-			}
-			bs = bs[r:]
-		}
-
-		if _, err = c.writev(bs); err != nil {
-			logging.Warnf("[%dm][%dc] write to client failed, error: %s", curId, curFd, err)
-			continue
-		}
-
-		if !c.opened {
-			logging.Warnf("[%dm][%dc] write failed because of client closed", curId, curFd)
-			continue
-		}
-
-		// release the flushed Msg
-		for i := 0; i < nDone; i++ {
-			msg := c.dequeueInMsg()
-			if msg == nil {
-				break
-			}
-			MsgPool.Put(msg)
-		}
+		el.flushClient(c)
 
 		// Check the status of connection every loop since it might be closed
 		// during writing data back to the peer due to some kind of system error.
@@ -314,6 +251,64 @@ Loop:
 
 	_, _ = s.inboundBuffer.Write(s.buffer)
 	return nil
+}
+
+// flushClient delivers replies in request order: it writes the completed requests at the
+// head of the client's queue, up to the first one that is still waiting for redis, and
+// releases them. Later requests never hold back replies that are ready.
+func (el *eventloop) flushClient(c *conn) {
+	if !c.opened || c.inMsgQueue == nil {
+		return
+	}
+
+	var nDone int
+	for cur := c.inMsgQueue.head; cur != nil && cur.Done; cur = cur.prev {
+		nDone++
+	}
+	if nDone == 0 {
+		return
+	}
+
+	var bs = make([][]byte, nDone)
+	bs = bs[:0]
+	cur := c.inMsgQueue.head
+
+	var curId uint64
+	var curFd = c.fd
+	var err error
+
+	for i := 0; i < nDone; i++ {
+		curId = cur.Id
+		bs = append(bs, cur.RspBody)
+		logging.Debugfunc(func() string { return fmt.Sprintf("[%dm][%dc] got res: %s", cur.Id, c.Fd(), cur.RspBodyString()) })
+		cur = cur.prev
+	}
+
+	for len(bs) > 0 {
+		var r = len(bs)
+		if r >= iovMax {
+			r = iovMax
+		}
+
+		if _, err = c.writev(bs[0:r]); err != nil {
+			logging.Warnf("[%dm][%dc] write to client failed, error: %s", curId, curFd, err)
+			return
+		}
+		if !c.opened {
+			logging.Warnf("[%dm][%dc] write failed because of client closed", curId, curFd)
+			return
+		}
+		bs = bs[r:]
+	}
+
+	// release the flushed Msg
+	for i := 0; i < nDone; i++ {
+		msg := c.dequeueInMsg()
+		if msg == nil {
+			break
+		}
+		MsgPool.Put(msg)
+	}
 }
 
 const iovMax = 1024
@@ -497,12 +492,19 @@ func (el *eventloop) msgTimeout() {
 			v.Error = codec.ErrMsgRequestTimeout
 			v.Done = true
 		}
+		// the request is completed with the timeout error and delivered in its pipeline
+		// position, like any other reply; replies that redis sends later are dropped
 		msg.Error = codec.ErrMsgRequestTimeout
+		msg.RspBody = append(msg.RspBody[:0], codec.ErrMsgRequestTimeout.Bytes()...)
+		msg.FragDoneNumber = len(msg.Body)
+		msg.Done = true
 		if c == nil || !c.IsOpened() {
 			logging.Warnf("[%dm|%df][%dc] try to send request timeout but client already closed", frag.MsgId(), frag.Id, frag.OwnerFd())
 			continue
 		}
-		c.AsyncWrite(codec.ErrMsgRequestTimeout.Bytes(), nil)
+		if cc, ok := c.(*conn); ok {
+			el.flushClient(cc)
+		}
 		logging.Warnf("[%dm|%df][%dc] request timeout, consider raising config '[proxy]timeout=%d', send res: %s", frag.MsgId(), frag.Id, frag.OwnerFd(), el.engine.opts.RedisRequestTimeout, codec.ErrMsgRequestTimeout.ShortString())
 	}
 }
